@@ -37,6 +37,8 @@ type KVParams struct {
 	NH     int    `json:"nh"`
 	Perm   bool   `json:"perm"`
 	Ops    []KVOp `json:"ops"`
+	// all times of the run lie before 1970
+	Pre1970 bool `json:"pre1970,omitempty"`
 }
 
 func init() {
@@ -60,7 +62,7 @@ func init() {
 			case k < 17:
 				op.Op = "reopen"
 			case k < 18:
-				op.Op = "clone"
+				op.Op = []string{"clone", "clone", "commit-fault"}[r.IntN(3)]
 			case k < 19:
 				op.Op = "diff"
 			default:
@@ -68,6 +70,7 @@ func init() {
 			}
 			p.Ops = append(p.Ops, op)
 		}
+		p.Pre1970 = r.IntN(8) == 0
 		return p
 	}, Run: runC17})
 }
@@ -183,7 +186,13 @@ func runC17(x *Exec) {
 			return k
 		}
 		keyStr := func(k interface{}) string { return fmt.Sprint(k) }
-		tm := func(t int64) time.Time { return T0.Add(time.Duration(t) * time.Second) }
+		tm := func(t int64) time.Time {
+			if p.Pre1970 {
+				// times before 1970 are negative numbers of nanoseconds: still distinct, still ordered
+				return time.Unix(-100000, 0).Add(time.Duration(t) * time.Second)
+			}
+			return T0.Add(time.Duration(t) * time.Second)
+		}
 
 		type handle struct {
 			db    *kv.DB
@@ -443,6 +452,59 @@ func runC17(x *Exec) {
 						recordVersion(*name, h.state)
 					}
 					h.dirty = false
+				case "commit-fault":
+					// a Commit that meets a storage error, then the caller simply tries again: an acknowledged
+					// Commit is stored, whatever happened before it
+					if !h.dirty {
+						continue
+					}
+					w.Faults = []*FaultSpec{{Client: "kv", Op: OpPut, Nth: 1 + op.Key%3, Kind: FaultErr}}
+					_, err1 := h.db.Commit(ctx)
+					fired := w.Faults[0].Fired > 0
+					w.Faults = nil
+					if err1 == nil && fired {
+						// the fault hit the retire step, whose errors are swallowed: committed
+						if roots, err := h.db.Roots(); err == nil && len(roots) == 1 {
+							recordVersion(roots[0], h.state)
+						}
+						h.dirty = false
+						continue
+					}
+					if err1 == nil {
+						if roots, err := h.db.Roots(); err == nil && len(roots) == 1 {
+							recordVersion(roots[0], h.state)
+						}
+						h.dirty = false
+						continue
+					}
+					x.Probe("commit-failed-on-storage-error")
+					name2, err2 := h.db.Commit(ctx)
+					if err2 == nil {
+						x.Check()
+						stored := false
+						if name2 != nil {
+							_, stored = w.S.Bucket[lay.Current+*name2]
+						}
+						if !stored {
+							x.Fail("C17-commit-retry-acknowledged-nothing", "%s: Commit failed (%v), the second Commit reported success but the version it names (%v) is not stored", desc, err1, name2)
+							return
+						}
+						if wt, werr := lay.WalkVersion(w.S.Bucket, *name2); werr != nil || !wt.OK() {
+							x.Fail("C17-commit-retry-acknowledged-nothing", "%s: Commit failed (%v), the second Commit reported success and published a version that is not readable: %v %s", desc, err1, werr, wt.Err())
+							return
+						}
+						recordVersion(*name2, h.state)
+						h.dirty = false
+						continue
+					}
+					// refused: the handle is given up, as its error says
+					h.db.Cancel()
+					conflicts = nil
+					if err := open(h, when); err != nil {
+						x.Fail("C17-op-failed", "%s: open after failed commit: %v", desc, err)
+						return
+					}
+					x.Probe("handle-reopened-after-failed-commit")
 				case "reopen":
 					if _, err := h.db.Commit(ctx); err != nil {
 						x.Fail("C17-op-failed", "%s: commit: %v", desc, err)
